@@ -17,6 +17,9 @@ def run(ctx):
     ctx.rule("R1", "sort-before-hash on the very slice that is hashed; 32-byte elements; salt last")
     ctx.rule("R2", "delegation agreement: one hashing leaf per type, arguments forwarded unmodified; SHA-256 users are new/update/finalize")
     ctx.rule("R3", "encoder / size helper / decoder agree on the predicate layout (R4: length-prefixed, constant widths, emission order)")
+    ctx.rule("R4", "the pre-hash encoding of the serde-hashed types is positional and complete: every declared field is written unconditionally in declaration order (postcard is not self-describing)")
+    from .. import serdepos
+    serdepos.check(ctx, "R4")
     H.sort_before_hash(ctx, "R1", "essential_hash::contract_addr::from_predicate_addrs_slice", salt=True)
     H.sort_before_hash(ctx, "R1", "essential_hash::solution_set_addr::from_solution_addrs_slice", salt=False)
     H.delegation(ctx, "R2")
